@@ -200,6 +200,18 @@ impl Report {
             println!("MACHINERY-ERROR: the replay target was not found among the checks of {}", self.property);
             std::process::exit(2);
         }
+        // worker processes ended by the progress watchdog: the subject does not terminate
+        let hangs: Vec<String> = self.machinery.iter().filter(|m| m.contains(NO_PROGRESS)).cloned().collect();
+        self.machinery.retain(|m| !m.contains(NO_PROGRESS));
+        for h in hangs.iter().take(20) {
+            self.findings.push(Finding {
+                clause: format!("{}.no_progress", self.property),
+                detail: h.replace(NO_PROGRESS, ""),
+                ops: vec!["worker process ended by the progress watchdog".to_string()],
+                artefact: json!({"explorer": "watchdog", "note": "re-run the check to reproduce; the job index identifies the history / case chunk"}),
+            });
+            self.validated_findings += 1;
+        }
         let known = self.load_known();
         let root = verif_root();
         let _ = std::fs::create_dir_all(root.join("evidence"));
@@ -320,6 +332,17 @@ impl Report {
         std::process::exit(0);
     }
 }
+
+/// A call that panics, aborts the process, deadlocks or never returns prevents every property from
+/// being observed on that path: these clauses count as violations of whichever property's check
+/// ran into them (they never occur on a tree on which C09 holds).
+pub fn is_fatal_clause(c: &str) -> bool {
+    matches!(c, "C09.livelock" | "C09.deadlock" | "C09.panic" | "C09.bg_panic" | "crash.abort")
+}
+
+/// Prefix of an entry of `Report::machinery` that is in fact a verdict: a worker process was ended
+/// by the progress watchdog (the subject does not terminate).
+pub const NO_PROGRESS: &str = "NO-PROGRESS: ";
 
 /// Thorough budgets in the sources are nominal; they are multiplied by this factor (default 0.4,
 /// override with RDBCHECK_THOROUGH_SCALE) so that a full thorough pass over the 17 properties
